@@ -6,11 +6,405 @@ are parameters; no injectivity.  `Gz.Local` (a member is recognised from its own
 `ExpandApk` theorems use — `expandApkWriter.Next` reads the first stream file back on its own.
 -/
 import Apko.Model.ExpandSplit
+import Apko.Generated.Split
 import Apko.Proofs.Lemmas.SplitLoop
 import Apko.Proofs.C05
 
 namespace Apko.C05Split
 open Apko Apko.Authentic Apko.ExpandSplit Apko.SplitLoop
+
+/-! ### ties to the regenerated facts (extract/split.go: whole bodies as flat statement lists, nesting shown by `· `,
+error texts left out, `return-error` = a return whose last result is an error) -/
+
+/-- the reads of `expandApkReader` before `EnableFastRead` are one byte long: `buf := make([]byte, 1)` -/
+theorem tie_slowChunk : Impl.slowChunk = Generated.expandApkReaderBuf := rfl
+
+/-- the model's switch between the repaired and the pinned end of the loop follows the code: a flag set only in the data
+branch and an `if !flag → return nil, error` after the loop -/
+theorem tie_strict : Impl.strict = Generated.expandApkRequiresData := rfl
+
+/-- a new writer has created no stream and expects two -/
+theorem tie_sw_initial : ({ src := [] } : St).created = Generated.swInitialCreated ∧
+    ({ src := [] } : St).maxStreams = Generated.swInitialMaxStreams := ⟨rfl, rfl⟩
+
+/-- `ExpandApk` = `expandStream`: the reader stack (`exR` one-byte reader over the source, `tr` tees it into the stream
+writer, `hr` tees THAT into the hash of the pass, gzip reads `hr`), SHA-1 per pass until `Next` reports the last stream,
+then fast reads + SHA-256; `Multistream(false)` + drain for a control-side member (`readSlow`), `checkSums` + drain over a
+tee into the `.tar` for the data section (`readData`), the hash is taken after the drain; sizes from the files; the 3 / 2
+switch and the fields (`finish`, `build`); `ControlData`, `PackageData`, the two `tarfs.New` -/
+theorem tie_ExpandApk : Generated.stmts_ExpandApk =
+    ["dir, err := os.MkdirTemp(cacheDir, \"expand-apk\")",
+     "if err != nil {",
+     "· return-error",
+     "}",
+     "sw, err := newExpandApkWriter(dir, \"stream\", \"tar.gz\")",
+     "if err != nil {",
+     "· return-error",
+     "}",
+     "exR := newExpandApkReader(source)",
+     "tr := io.TeeReader(exR, sw)",
+     "var gzi *gzip.Reader",
+     "gzipStreams := []string{}",
+     "hashes := [][]byte{}",
+     "maxStreamsReached := false",
+     "dataRead := false",
+     "for {",
+     "· var h hash.Hash = sha1.New()",
+     "· if err := sw.Next(); err != nil {",
+     "· · if err == errExpandApkWriterMaxStreams {",
+     "· · · maxStreamsReached = true",
+     "· · · exR.EnableFastRead()",
+     "· · · h = sha256.New()",
+     "· · } else {",
+     "· · · return-error",
+     "· · }",
+     "· }",
+     "· hr := io.TeeReader(tr, h)",
+     "· if gzi == nil {",
+     "· · gzi, err = gzip.NewReader(hr)",
+     "· } else {",
+     "· · err = gzi.Reset(hr)",
+     "· }",
+     "· if err == io.EOF {",
+     "· · break",
+     "· } else if err != nil {",
+     "· · return-error",
+     "· }",
+     "· if !maxStreamsReached {",
+     "· · gzi.Multistream(false)",
+     "· · if _, err := io.Copy(io.Discard, gzi); err != nil {",
+     "· · · return-error",
+     "· · }",
+     "· · hashes = append(hashes, h.Sum(nil))",
+     "· · gzipStreams = append(gzipStreams, sw.CurrentName())",
+     "· } else {",
+     "· · tarfilename := strings.TrimSuffix(sw.CurrentName(), \".gz\")",
+     "· · tarfile, err := os.Create(tarfilename)",
+     "· · if err != nil {",
+     "· · · return-error",
+     "· · }",
+     "· · bw := pooledBufioWriter(tarfile)",
+     "· · defer writerPool.Put(bw)",
+     "· · tr := io.TeeReader(gzi, bw)",
+     "· · if err := checkSums(ctx, tr); err != nil {",
+     "· · · return-error",
+     "· · }",
+     "· · if _, err := io.Copy(io.Discard, tr); err != nil {",
+     "· · · return-error",
+     "· · }",
+     "· · if err := bw.Flush(); err != nil {",
+     "· · · return-error",
+     "· · }",
+     "· · if err := tarfile.Close(); err != nil {",
+     "· · · return-error",
+     "· · }",
+     "· · gzipStreams = append(gzipStreams, sw.CurrentName())",
+     "· · hashes = append(hashes, h.Sum(nil))",
+     "· · dataRead = true",
+     "· · break",
+     "· }",
+     "}",
+     "if gzi != nil {",
+     "· if err := gzi.Close(); err != nil {",
+     "· · return-error",
+     "· }",
+     "}",
+     "if err := sw.CloseFile(); err != nil {",
+     "· return-error",
+     "}",
+     "numGzipStreams := len(gzipStreams)",
+     "totalSize := int64(0)",
+     "sizes := []int64{}",
+     "for _, s := range gzipStreams {",
+     "· info, err := os.Stat(s)",
+     "· if err != nil {",
+     "· · return-error",
+     "· }",
+     "· totalSize += info.Size()",
+     "· sizes = append(sizes, info.Size())",
+     "}",
+     "var signatureIndex int",
+     "var controlDataIndex int",
+     "var packageIndex int",
+     "switch numGzipStreams {",
+     "case 3:",
+     "· signatureIndex = 0",
+     "· controlDataIndex = 1",
+     "· packageIndex = 2",
+     "case 2:",
+     "· signatureIndex = -1",
+     "· controlDataIndex = 0",
+     "· packageIndex = 1",
+     "default:",
+     "· return-error",
+     "}",
+     "if !dataRead {",
+     "· return-error",
+     "}",
+     "signed := signatureIndex >= 0",
+     "expanded := APKExpanded{ tempDir: dir, Signed: signed, Size: totalSize, ControlFile: gzipStreams[controlDataIndex], ControlHash: hashes[controlDataIndex], ControlSize: sizes[controlDataIndex], PackageFile: gzipStreams[packageIndex], PackageHash: hashes[packageIndex], PackageSize: sizes[packageIndex], }",
+     "if signed {",
+     "· expanded.SignatureFile = gzipStreams[signatureIndex]",
+     "· expanded.SignatureHash = hashes[signatureIndex]",
+     "· expanded.SignatureSize = sizes[signatureIndex]",
+     "}",
+     "control, err := expanded.ControlData()",
+     "if err != nil {",
+     "· return-error",
+     "}",
+     "expanded.ControlFS, err = tarfs.New(bytes.NewReader(control), int64(len(control)))",
+     "if err != nil {",
+     "· return-error",
+     "}",
+     "expanded.TarFile = strings.TrimSuffix(expanded.PackageFile, \".gz\")",
+     "data, err := expanded.PackageData()",
+     "if err != nil {",
+     "· return-error",
+     "}",
+     "info, err := data.Stat()",
+     "if err != nil {",
+     "· return-error",
+     "}",
+     "expanded.TarFS, err = tarfs.New(data, info.Size())",
+     "if err != nil {",
+     "· return-error",
+     "}",
+     "return &expanded, nil"] := rfl
+
+/-- `expandApkWriter.Next` = `swNext` / `detect`: close, after the FIRST stream read it back (gunzip, first tar header,
+`.SIGN.` prefix → three streams), new file, `streamId+1 >= maxStreams` → the last-stream signal -/
+theorem tie_swNext : Generated.stmts_swNext =
+    ["if w.f != nil {",
+     "· if err := w.CloseFile(); err != nil {",
+     "· · return-error",
+     "· }",
+     "}",
+     "if w.streamId == 0 {",
+     "· f, err := os.Open(w.f.Name())",
+     "· if err != nil {",
+     "· · return-error",
+     "· }",
+     "· defer f.Close()",
+     "· gzipRead, err := gzip.NewReader(f)",
+     "· if err != nil {",
+     "· · return-error",
+     "· }",
+     "· defer gzipRead.Close()",
+     "· tarRead := tar.NewReader(gzipRead)",
+     "· hdr, err := tarRead.Next()",
+     "· if err != nil {",
+     "· · return-error",
+     "· }",
+     "· if strings.HasPrefix(hdr.Name, \".SIGN.\") {",
+     "· · w.maxStreams = 3",
+     "· }",
+     "}",
+     "w.streamId++",
+     "p := fmt.Sprintf(\"%s-%d.%s\", filepath.Join(w.parentDir, w.baseName), w.streamId, w.ext)",
+     "file, err := os.Create(p)",
+     "if err != nil {",
+     "· return-error",
+     "}",
+     "w.f = file",
+     "if w.streamId+1 >= w.maxStreams {",
+     "· return errExpandApkWriterMaxStreams",
+     "}",
+     "return nil"] := rfl
+
+/-- `expandApkWriter.Write`: straight into the current file -/
+theorem tie_swWrite : Generated.stmts_swWrite =
+    ["i, err := sw.f.Write(p)",
+     "if err != nil {",
+     "· err = wrapped-error",
+     "}",
+     "return-error"] := rfl
+
+theorem tie_swCloseFile : Generated.stmts_swCloseFile =
+    ["return w.f.Close()"] := rfl
+
+theorem tie_swCurrentName : Generated.stmts_swCurrentName =
+    ["return w.f.Name()"] := rfl
+
+/-- `expandApkReader.Read`: one byte per read unless `fast` -/
+theorem tie_exRead : Generated.stmts_exRead =
+    ["if r.fast {",
+     "· return r.Reader.Read(b)",
+     "}",
+     "buf := make([]byte, 1)",
+     "n, err := r.Reader.Read(buf)",
+     "if err != nil && err != io.EOF {",
+     "· err = wrapped-error",
+     "} else {",
+     "· b[0] = buf[0]",
+     "}",
+     "return-error"] := rfl
+
+theorem tie_exEnableFastRead : Generated.stmts_exEnableFastRead =
+    ["r.fast = true"] := rfl
+
+/-- a new reader starts slow -/
+theorem tie_newExpandApkReader : Generated.stmts_newExpandApkReader =
+    ["return &expandApkReader{ Reader: r, fast: false, }"] := rfl
+
+/-- a new writer: no stream yet, two streams expected -/
+theorem tie_newExpandApkWriter : Generated.stmts_newExpandApkWriter =
+    ["sw := expandApkWriter{ parentDir: parentDir, baseName: baseName, ext: ext, streamId: -1, maxStreams: 2, }",
+     "return &sw, nil"] := rfl
+
+/-- `PackageData` = `packageData`: the `.tar` when it opens, else multistream gunzip of the `.tar.gz` through a temp file + rename -/
+theorem tie_PackageData : Generated.stmts_PackageData =
+    ["uf, err := os.Open(a.TarFile)",
+     "if err == nil {",
+     "· return uf, nil",
+     "} else if !os.IsNotExist(err) {",
+     "· return-error",
+     "}",
+     "f, err := os.Open(a.PackageFile)",
+     "if err != nil {",
+     "· return-error",
+     "}",
+     "defer f.Close()",
+     "br := pooledBufioReader(f)",
+     "defer readerPool.Put(br)",
+     "zr, err := gzip.NewReader(br)",
+     "if err != nil {",
+     "· return-error",
+     "}",
+     "uf, err = os.CreateTemp(filepath.Dir(a.TarFile), filepath.Base(a.TarFile)+\".*.tmp\")",
+     "if err != nil {",
+     "· return-error",
+     "}",
+     "_ = uf.Chmod(os.FileMode(0644))",
+     "buf := pooledSlice()",
+     "defer slicePool.Put(buf)",
+     "if _, err := io.CopyBuffer(uf, zr, buf); err != nil {",
+     "· uf.Close()",
+     "· _ = os.Remove(uf.Name())",
+     "· return-error",
+     "}",
+     "if err := uf.Close(); err != nil {",
+     "· _ = os.Remove(uf.Name())",
+     "· return-error",
+     "}",
+     "if err := os.Rename(uf.Name(), a.TarFile); err != nil {",
+     "· _ = os.Remove(uf.Name())",
+     "· return-error",
+     "}",
+     "return os.Open(a.TarFile)"] := rfl
+
+/-- `ControlData`: multistream gunzip of the whole control file (`gunzipAll`) -/
+theorem tie_ControlData : Generated.stmts_ControlData =
+    ["a.Lock()",
+     "defer a.Unlock()",
+     "if a.controlData == nil {",
+     "· rc, err := os.Open(a.ControlFile)",
+     "· if err != nil {",
+     "· · return-error",
+     "· }",
+     "· defer rc.Close()",
+     "· zr, err := gzip.NewReader(rc)",
+     "· if err != nil {",
+     "· · return-error",
+     "· }",
+     "· a.controlData, err = io.ReadAll(zr)",
+     "· if err != nil {",
+     "· · return-error",
+     "· }",
+     "}",
+     "return a.controlData, nil"] := rfl
+
+/-- `Split` = `splitParts`: gzip on the byte-reading tee over ONE bufio reader, `Multistream(false)`, first tar header,
+`.SIGN.` → drain, swap the buffer, `Reset`; drain the control member; the rest of the bufio reader is the data part -/
+theorem tie_Split : Generated.stmts_Split =
+    ["parts := []io.Reader{}",
+     "br := bufio.NewReader(source)",
+     "buf := bytes.Buffer{}",
+     "tee := &teeByteReader{r: br, w: &buf}",
+     "gzi, err := gzip.NewReader(tee)",
+     "if err != nil {",
+     "· return-error",
+     "}",
+     "gzi.Multistream(false)",
+     "tr := tar.NewReader(gzi)",
+     "hdr, err := tr.Next()",
+     "if err != nil {",
+     "· return-error",
+     "}",
+     "if strings.HasPrefix(hdr.Name, \".SIGN.\") {",
+     "· if _, err := io.Copy(io.Discard, gzi); err != nil {",
+     "· · return-error",
+     "· }",
+     "· parts = append(parts, bytes.NewReader(buf.Bytes()))",
+     "· buf = bytes.Buffer{}",
+     "· tee.w = &buf",
+     "· if err := gzi.Reset(tee); err != nil {",
+     "· · return-error",
+     "· }",
+     "· gzi.Multistream(false)",
+     "}",
+     "if _, err := io.Copy(io.Discard, gzi); err != nil {",
+     "· return-error",
+     "}",
+     "parts = append(parts, bytes.NewReader(buf.Bytes()))",
+     "if err := gzi.Close(); err != nil {",
+     "· return-error",
+     "}",
+     "parts = append(parts, br)",
+     "return parts, nil"] := rfl
+
+theorem tie_teeReadByte : Generated.stmts_teeReadByte =
+    ["c, err := t.r.ReadByte()",
+     "if err := t.w.WriteByte(c); err != nil {",
+     "· return-error",
+     "}",
+     "return-error"] := rfl
+
+theorem tie_teeRead : Generated.stmts_teeRead =
+    ["n, err := t.r.Read(p)",
+     "if n > 0 {",
+     "· if n, err := t.w.Write(p[:n]); err != nil {",
+     "· · return-error",
+     "· }",
+     "}",
+     "return-error"] := rfl
+
+/-- `ResolveApk` = `resolve`: SHA-1 of the signature part, SHA-1 of the control part, SHA-256 of the rest -/
+theorem tie_ResolveApk : Generated.stmts_ResolveApk =
+    ["resolved := &APKResolved{}",
+     "split, err := expandapk.Split(source)",
+     "if err != nil {",
+     "· return-error",
+     "}",
+     "if len(split) < 2 {",
+     "· return-error",
+     "}",
+     "control, data := split[0], split[1]",
+     "if len(split) == 3 {",
+     "· control, data = split[1], split[2]",
+     "· var h hash.Hash = sha1.New()",
+     "· size, err := io.Copy(h, split[0])",
+     "· if err != nil {",
+     "· · return-error",
+     "· }",
+     "· resolved.SignatureSize = int(size)",
+     "· resolved.SignatureHash = h.Sum(nil)",
+     "}",
+     "buf := bytes.NewBuffer(nil)",
+     "if _, err := io.Copy(buf, control); err != nil {",
+     "· return-error",
+     "}",
+     "resolved.ControlSize = buf.Len()",
+     "ctrlHash := sha1.Sum(buf.Bytes())",
+     "resolved.ControlHash = ctrlHash[:]",
+     "dataHash := sha256.New()",
+     "size, err := io.Copy(dataHash, data)",
+     "if err != nil {",
+     "· return-error",
+     "}",
+     "resolved.DataSize = int(size)",
+     "resolved.DataHash = dataHash.Sum(nil)",
+     "return resolved, nil"] := rfl
+
 
 /-! ### after the loop -/
 
@@ -194,6 +588,11 @@ theorem stream_exact : StreamExact true := by
   intro G H hloc src o h
   exact stream_exact_partial G H hloc true src o h (strict_checked G H _ src o h)
 
+
+/-- that is the algorithm the code runs today (`tie_strict`, `tie_slowChunk`) -/
+theorem impl_stream_exact (G : Gz) (H : Hashes) (hloc : G.Local) (src : Bytes) (o : Out)
+    (h : Impl.expandStream G H src = .ok o) : ∃ r, Exact G H src o r :=
+  stream_exact G H hloc src o h
 
 /-- `control_hash_exact`: the value compared with the index checksum is the SHA-1 of exactly the bytes of the control
 member — for signed (the second member) and unsigned (the first member) packages alike -/
